@@ -464,10 +464,17 @@ struct RGCholesky : IRunner
 struct RGRegInv : IRunner
 {
     typedef Eigen::SparseMatrix<double> Sp;
-    typedef Ctl<SparseSymMatProd<double>> Op; typedef Ctl<SparseRegularInverse<double>> BOp;
+    // B is handed over through its UPPER triangle only (the lower one is not stored), A through its lower triangle only
+    typedef Ctl<SparseSymMatProd<double, Eigen::Lower>> Op; typedef Ctl<SparseRegularInverse<double, Eigen::Upper>> BOp;
     typedef SymGEigsSolver<Op, BOp, GEigsMode::RegularInverse> S;
     Sp As, Bs; std::unique_ptr<Op> op; std::unique_ptr<BOp> bop; std::unique_ptr<S> s;
-    RGRegInv(const Problem& p, int nev_, int ncv_) { prob = p; cls = "SymGEigsSolver_RegularInverse"; nev = nev_; ncv = ncv_; As = prob.A.sparseView(); Bs = prob.B.sparseView(); op.reset(new Op(As)); op->ctl = &ctl; bop.reset(new BOp(Bs)); bop->ctl = &ctlB; s.reset(new S(*op, *bop, nev, ncv)); }
+    RGRegInv(const Problem& p, int nev_, int ncv_)
+    {
+        prob = p; cls = "SymGEigsSolver_RegularInverse"; nev = nev_; ncv = ncv_;
+        Mat Al = prob.A.triangularView<Eigen::Lower>(), Bu = prob.B.triangularView<Eigen::Upper>();
+        As = Al.sparseView(); Bs = Bu.sparseView();
+        op.reset(new Op(As)); op->ctl = &ctl; bop.reset(new BOp(Bs)); bop->ctl = &ctlB; s.reset(new S(*op, *bop, nev, ncv));
+    }
     void init() override { s->init(); }
     void initv(const CVec& v) override { Vec r = v.real(); s->init(r.data()); }
     long compute(int sel, long maxit, double tol, int sorting) override { return (long) s->compute((SortRule) sel, maxit, tol, (SortRule) sorting); }
